@@ -83,6 +83,8 @@ impl<'a> InputGen<'a> {
                         list(&mut self.ids, name, items)
                     }
                     Shape::Enum(_) => self.enum_item(rng, name, r, depth + 1),
+                    Shape::Unit => word(&mut self.ids, name),
+                    Shape::Newtype(t) => self.item_for(rng, name, t, depth + 1),
                 }
             }
         }
@@ -230,6 +232,7 @@ impl<'a> InputGen<'a> {
                 match &r.shape {
                     Shape::Struct(fs) => fs.iter().map(|f| field_name(r, f)).collect(),
                     Shape::Enum(vs) => vs.iter().map(|v| variant_name(r, v)).collect(),
+                    _ => vec![],
                 },
             ),
             Ctx::Fields(r, fs) => (r, fs.iter().map(|f| field_name(r, f)).collect()),
@@ -379,6 +382,8 @@ impl<'a> InputGen<'a> {
             Ctx::Fields(r, fs) => in_fields(r, fs),
             Ctx::Recv(r) => match &r.shape {
                 Shape::Struct(fs) => in_fields(r, fs),
+                Shape::Unit => None,
+                Shape::Newtype(t) => of_type(t),
                 Shape::Enum(vs) => {
                     for v in vs {
                         if variant_name(r, v) == name {
